@@ -8,7 +8,8 @@
 (*                               . Attach                                  *)
 (*   api.Module.Close          = CloseCAS . Unlist . CloseRes              *)
 (*   Runtime.Module            = Lookup                   (read lock)      *)
-(*   Runtime.Close             = RtCAS . StoreLock . StoreCloseMod* .      *)
+(*   Runtime.Close             = RtCAS . StoreLock . (StoreCloseCAS .      *)
+(*                               StoreCloseMod)* .                         *)
 (*                               StoreCloseDone           (write lock)     *)
 (*   Runtime.CompileModule / HostModuleBuilder.Compile = Compile           *)
 (*                                                                         *)
@@ -95,7 +96,7 @@ Begin(t) ==
           /\ "lookup" \in OpKinds
           /\ GotoSnap(t, [op |-> "lookup", stage |-> "lock", name |-> n])
      \/ /\ "rtclose" \in OpKinds
-        /\ GotoSnap(t, [op |-> "rtclose", stage |-> "cas"])
+        /\ GotoSnap(t, [op |-> "rtclose", stage |-> "cas", cur |-> 0])
      \/ \E k \in {"compile", "hostcompile"} \cap OpKinds :
           GotoSnap(t, [op |-> k, stage |-> "check"])
   /\ UNCHANGED <<rtClosed, storeClosed, owner, listed, lock, mods>>
@@ -212,15 +213,21 @@ StoreLock(t) ==         \* Store.CloseWithExitCode takes the write lock and keep
   /\ Goto(t, [pc[t] EXCEPT !.stage = "storemods"])
   /\ UNCHANGED <<rtClosed, storeClosed, owner, listed, mods>>
 
-StoreCloseMod(t, m) ==  \* m.closeWithExitCode: CAS, then resources, for every listed module that is still open
-  /\ pc[t].op = "rtclose" /\ pc[t].stage = "storemods"
+StoreCloseCAS(t, m) ==  \* m.closeWithExitCode: the CAS on the closed flag, lock free; concurrent Close calls see it before the resources go
+  /\ pc[t].op = "rtclose" /\ pc[t].stage = "storemods" /\ pc[t].cur = 0
   /\ m \in listed /\ mods[m].closed = 0
-  /\ mods' = CloseResOf([mods EXCEPT ![m].closed = 1], m)
-  /\ Goto(t, pc[t])
+  /\ mods' = [mods EXCEPT ![m].closed = 1]
+  /\ Goto(t, [pc[t] EXCEPT !.cur = m])
+  /\ UNCHANGED <<rtClosed, storeClosed, owner, listed, lock>>
+
+StoreCloseMod(t, m) ==  \* ... then ensureResourcesClosed of the module whose CAS this thread won
+  /\ pc[t].op = "rtclose" /\ pc[t].stage = "storemods" /\ pc[t].cur = m
+  /\ mods' = CloseResOf(mods, m)
+  /\ Goto(t, [pc[t] EXCEPT !.cur = 0])
   /\ UNCHANGED <<rtClosed, storeClosed, owner, listed, lock>>
 
 StoreCloseDone(t) ==    \* list and map dropped, lock released
-  /\ pc[t].op = "rtclose" /\ pc[t].stage = "storemods"
+  /\ pc[t].op = "rtclose" /\ pc[t].stage = "storemods" /\ pc[t].cur = 0
   /\ \A m \in listed : mods[m].closed # 0
   /\ listed' = {} /\ owner' = [n \in Named |-> 0] /\ storeClosed' = TRUE /\ lock' = "none"
   /\ Finish(t, [op |-> "rtclose", res |-> "closed"])
@@ -245,7 +252,7 @@ InstEngineClosed(t) ==  \* Store.instantiate fails because the engine was closed
 
 Step(t) == \/ Begin(t) \/ InstCheck(t) \/ Register(t) \/ FailCAS(t) \/ FailUnlist(t)
            \/ FailRes(t) \/ Attach(t) \/ CloseCAS(t) \/ Unlist(t) \/ CloseRes(t) \/ Lookup(t)
-           \/ RtCAS(t) \/ StoreLock(t) \/ (\E m \in listed : StoreCloseMod(t, m)) \/ StoreCloseDone(t)
+           \/ RtCAS(t) \/ StoreLock(t) \/ (\E m \in listed : StoreCloseCAS(t, m) \/ StoreCloseMod(t, m)) \/ StoreCloseDone(t)
            \/ Compile(t) \/ CompileAdd(t) \/ InstEngineClosed(t)
 
 Next == \E t \in Threads : Step(t)
